@@ -615,8 +615,20 @@ def history_world(args, scratch):
             gen_file = re.compile(r'^(all_equations|unique_equations|trees|orig_trees|extra_trees|aifeyn|orig_aifeyn|extra_aifeyn|matches|'
                                   r'inv_subs|inv_idx)_\d+(_round_\d+)?\.txt$')
 
+            ipe_obs = bool((obs.get('kw') or {}).get('ignore_previous_eqns'))
+            wanted = {'compl_%d' % k for k in (range(1, comp + 1) if ipe_obs else [comp])}
+
             def only_generation_outputs(d, names):
-                return [n for n in names if not os.path.isdir(os.path.join(d, n)) and not gen_file.match(n)]
+                # ... and only the complexities the observed call is entitled to read: libraries of OTHER complexities generated
+                # earlier in the same basis directory are history, not input
+                out = []
+                for n in names:
+                    if os.path.isdir(os.path.join(d, n)):
+                        if n.startswith('compl_') and n not in wanted:
+                            out.append(n)
+                    elif not gen_file.match(n):
+                        out.append(n)
+                return out
             shutil.copytree(H + '/snap/lib/' + obs['runname'], libdir(F, obs['runname']), ignore=only_generation_outputs)
             if like['cls'] in ('Gauss', 'Poisson'):
                 os.makedirs(F + '/' + like['data_dir'])
